@@ -201,6 +201,8 @@ class Check:
         self.known = {}
         self.assumptions = []
         self.rules = []
+        self.drift = {}
+        self.drift_samples = []
 
     def add_tlc(self, name, r, exhaustive=None):
         self.cov["states"] += r["distinct"]
@@ -244,6 +246,10 @@ class Check:
         for k in (r.get("known") or []):
             if k["property"] in props:
                 self.known.setdefault(k["known"], []).append(k)
+        for k, n in (r.get("drift_count") or {}).items():
+            self.drift[k] = self.drift.get(k, 0) + n
+        for d in (r.get("drift") or [])[:2]:
+            self.drift_samples.append(dict(d, reported_by=name))
         return r
 
     def finish(self):
@@ -290,6 +296,14 @@ class Check:
         self.cov["rule"] = " | ".join("%s: %s" % (n, r) for n, r in self.rules) if self.rules else self.cov.get("rule", "")
         if not self.cov["samples"]:
             self.cov["samples"] = ["(no sample recorded)"]
+        # model drift: the code departs from the specification where the property is not at stake (the
+        # property-level checks of the same cases passed).  Not a violation; the model needs updating.
+        for k, cnt in sorted(self.drift.items()):
+            if k.split(" ")[0] == self.prop:
+                lines.append("MODEL-DRIFT: property=%s %s (%d cases): the code departs from the specification where the property does not decide; no violation" % (self.prop, k.split(" ", 1)[1], cnt))
+        self.cov["model_drift"] = {k: v for k, v in self.drift.items() if k.split(" ")[0] == self.prop}
+        if self.cov["model_drift"]:
+            self.cov["model_drift_samples"] = [dict(what=d.get("what"), expected=d.get("expected"), observed=d.get("observed")) for d in self.drift_samples[:4]]
         ev = dict(property_id=self.prop, tier=self.tier, seed=self.seed, level=self.level, coverage=self.cov,
                   assumptions=self.assumptions, wall_s=wall, violations=nviol,
                   known_findings=sorted(self.known.keys()))
